@@ -112,7 +112,7 @@ def run_instance(args):
             # solver-sampled inputs that satisfy the precondition (falsification by replay)
             # with assumed contracts in play the real callee is patched to behave as assumed, so that a failing run
             # is a counterexample to the unit under contract and not to the assumption (e.g. circle-fit accuracy)
-            c = conformance(h, ex, seed, 12 if tier == "quick" else 60, apply_stubs=bool(ex.assumed))
+            c = conformance(h, ex, seed, 12 if tier == "quick" else 60, apply_stubs=bool(ex.assumed), hunting=True)
             out["falsification"] = {k: (len(v) if isinstance(v, list) else v) for k, v in c.items()}
             if c["mismatches"]:
                 mm = c["mismatches"][0]
@@ -253,7 +253,7 @@ def run_tasks(tasks, jobs, hard_timeout):
     return [results[t[:2]] for t in tasks]
 
 
-def conformance(h, ex, seed, k, apply_stubs=True):
+def conformance(h, ex, seed, k, apply_stubs=True, hunting=False):
     """k solver-chosen concrete inputs satisfying the harness precondition are run through CPython"""
     from . import harness, sym
     import z3
@@ -306,7 +306,8 @@ def conformance(h, ex, seed, k, apply_stubs=True):
                 continue
             m = s.model()
         vals = _values_from_model(m, ex2.symbols)
-        if any(isinstance(v, float) and (v != v or abs(v) > 1e8 or 0 < abs(v) < 1e-8) for v in vals.values()):
+        tiny = (lambda v: False) if hunting else (lambda v: 0 < abs(v) < 1e-8)      # when hunting for a witness a native failure is a finding whatever the magnitudes
+        if any(isinstance(v, float) and (v != v or abs(v) > 1e8 or tiny(v)) for v in vals.values()):
             continue                      # model values whose spread exceeds what double arithmetic resolves (1e58 next to 1e-19): the reals of
                                           # the encoding are not floats (A-real); such a sample says nothing about the engine
         st, nctx = harness.run_native(h, vals, apply_stubs=apply_stubs)
